@@ -124,17 +124,22 @@ def errInvalidNUMAMemory := "invalid-numa-memory"
 def errInsufficientCapacity := "insufficient-capacity"
 def errInsufficientResource := "insufficient"
 
-/-- WorkloadResourceRequest.Validate, statement by statement -/
+/-- WorkloadResourceRequest.Validate, statement by statement (one definition per
+    normalising assignment, composed in `Req.validate`) -/
+def Req.v1 (w : Req) : Req := if w.cpuRequest = 0 ∧ w.cpuLimit > 0 then { w with cpuRequest := w.cpuLimit } else w
+def Req.v2 (w : Req) : Req := if w.memRequest = 0 ∧ w.memLimit > 0 then { w with memRequest := w.memLimit } else w
+def Req.v3 (w : Req) : Req :=
+  if w.memLimit > 0 ∧ w.memRequest > 0 ∧ w.memLimit < w.memRequest then { w with memLimit := w.memRequest } else w
+def Req.v4 (w : Req) : Req :=
+  if w.cpuRequest > 0 ∧ w.cpuLimit > 0 ∧ w.cpuLimit < w.cpuRequest then { w with cpuLimit := w.cpuRequest } else w
+def Req.v5 (w : Req) : Req :=
+  if w.cpuBind ∧ w.cpuRequest > 0 ∧ w.cpuLimit > 0 ∧ w.cpuLimit > w.cpuRequest then { w with cpuRequest := w.cpuLimit } else w
+
 def Req.validate (w : Req) : Except String Req :=
-  let w := if w.cpuRequest = 0 ∧ w.cpuLimit > 0 then { w with cpuRequest := w.cpuLimit } else w
-  if w.memLimit < 0 ∨ w.memRequest < 0 then .error errInvalidMemory else
-  if w.cpuRequest < 0 ∨ w.cpuLimit < 0 then .error errInvalidCPU else
-  if w.cpuRequest = 0 ∧ w.cpuBind then .error errInvalidCPU else
-  let w := if w.memRequest = 0 ∧ w.memLimit > 0 then { w with memRequest := w.memLimit } else w
-  let w := if w.memLimit > 0 ∧ w.memRequest > 0 ∧ w.memLimit < w.memRequest then { w with memLimit := w.memRequest } else w
-  let w := if w.cpuRequest > 0 ∧ w.cpuLimit > 0 ∧ w.cpuLimit < w.cpuRequest then { w with cpuLimit := w.cpuRequest } else w
-  let w := if w.cpuBind ∧ w.cpuRequest > 0 ∧ w.cpuLimit > 0 ∧ w.cpuLimit > w.cpuRequest then { w with cpuRequest := w.cpuLimit } else w
-  .ok w
+  if w.v1.memLimit < 0 ∨ w.v1.memRequest < 0 then .error errInvalidMemory else
+  if w.v1.cpuRequest < 0 ∨ w.v1.cpuLimit < 0 then .error errInvalidCPU else
+  if w.v1.cpuRequest = 0 ∧ w.v1.cpuBind then .error errInvalidCPU else
+  .ok w.v1.v2.v3.v4.v5
 
 /-- types/node.go NodeResourceInfo (Usage is never nil on the modelled paths) -/
 structure NodeInfo where
